@@ -345,6 +345,77 @@ def null_required_stream(ctx, res):
                         res.violate("C11:required-null-accepted", "a load returned although a required field was given an explicit null (the field has a declared default)", case)
 
 
+def container_field_validator_stream(ctx, res):
+    """validators registered on the ITEM field of a typed list and on the KEY and VALUE fields of a typed dict (constructor argument or
+    decorator): a load that returns means each was run against every loaded item / key / value and passed — at the root, nested, and
+    inside items of configuration lists"""
+    import cincoconfig as cc
+    from cincoconfig.support import validator as register
+    for how in ("ctor", "decorator"):
+        for depth in (0, 2):
+            for in_item in (False, True):
+                for target, tree_leaf, bad in (("list-item", {"nums": [1, -5, 2]}, True), ("dict-value", {"byname": {"a": 1, "b": -7}}, True),
+                                               ("dict-key", {"byname": {"ok": 1, "BAD": 2}}, True), ("all-good", {"nums": [1, 2], "byname": {"ok": 3}}, False)):
+                    calls = []
+
+                    def nonneg(cfg, v, calls=calls):
+                        calls.append(("nonneg", v))
+                        if v < 0:
+                            raise ValueError("negative")
+                        return v
+
+                    def lower_only(cfg, v, calls=calls):
+                        calls.append(("lower", v))
+                        if v != v.lower():
+                            raise ValueError("upper-case key")
+                        return v
+                    leaf = cc.Schema()
+                    if how == "ctor":
+                        leaf.nums = cc.ListField(cc.IntField(validator=nonneg), default=lambda: [])
+                        leaf.byname = cc.DictField(cc.StringField(validator=lower_only), cc.IntField(validator=nonneg), default=lambda: {})
+                    else:
+                        item_f, key_f, val_f = cc.IntField(), cc.StringField(), cc.IntField()
+                        register(item_f)(nonneg)
+                        register(key_f)(lower_only)
+                        register(val_f)(nonneg)
+                        leaf.nums = cc.ListField(item_f, default=lambda: [])
+                        leaf.byname = cc.DictField(key_f, val_f, default=lambda: {})
+                    s = cc.Schema()
+                    holder = s
+                    for lvl in range(depth):
+                        holder = getattr(holder, "lvl%d" % lvl)
+                    if in_item:
+                        holder.items = cc.ListField(leaf, default=lambda: [])
+                        tree = {"items": [dict(tree_leaf)]}
+                    else:
+                        holder.node = leaf
+                        tree = {"node": dict(tree_leaf)}
+                    for lvl in reversed(range(depth)):
+                        tree = {"lvl%d" % lvl: tree}
+                    for route in ("load_tree", "json"):
+                        cfg = s()
+                        del calls[:]
+                        try:
+                            if route == "load_tree":
+                                cfg.load_tree(copy.deepcopy(tree))
+                            else:
+                                cfg.loads(cc.ConfigFormat.get("json").dumps(cfg, tree), format="json")
+                            returned = True
+                        except Exception:  # noqa
+                            returned = False
+                        case = {"stream": "container-field-validator", "how": how, "depth": depth, "in_list_item": in_item, "target": target, "route": route,
+                                "calls": [list(map(str, c)) for c in calls][:12]}
+                        res.case(stable(case), kind="container-field-validator:" + target)
+                        if returned and bad:
+                            res.violate("C11:registered-validator-not-run", "a load returned although a validator registered on the item / key / value field of a typed "
+                                        "container rejects a loaded entry", case)
+                        elif returned and not bad:
+                            seen = {c for c in calls}
+                            if not {("nonneg", 1), ("nonneg", 2), ("nonneg", 3), ("lower", "ok")} <= seen:
+                                res.violate("C11:registered-validator-not-run", "a load returned without running the validators registered on the item / key / value fields "
+                                            "against every loaded entry", case)
+
+
 def env_required_stream(ctx, res):
     """required fields bound to an environment variable, with the variable in each of its states (unset, set but empty, set and
     valid) and a tree that omits the field or gives it: a load / validation that returns means the field has a value; a variable that
@@ -479,6 +550,7 @@ def run(ctx, n_quick=250, n_thorough=8000):
     guard(res, "C11", null_required_stream, ctx, res)
     guard(res, "C11", multi_validator_stream, ctx, res)
     guard(res, "C11", env_required_stream, ctx, res)
+    guard(res, "C11", container_field_validator_stream, ctx, res)
     return res
 
 
